@@ -8,7 +8,7 @@ from crosshair.tracers import NoTracing
 from tartiflette import create_engine, Directive, Scalar, Resolver
 
 META = {
-    "bounds": "catalogue of 95 rule-breaking SDL texts (every rule of the statement at several sites: field / argument / input field / wrapped / via extend / in a second file) "
+    "bounds": "catalogue of 101 rule-breaking SDL texts (every rule of the statement at several sites: field / argument / input field / wrapped / via extend / in a second file) "
               "+ generators over wrapper bits for interface conformance (field type 8x8 wrappings x 4 base-type pairs, argument type 8x8, extra argument nullability/default)",
     "outside": "SDL outside the catalogue/generators; engine builds run concretely (create_engine under tracing costs ~40 s because of the lark parse: the selectors are "
                "resolved by branching, then the build runs untraced on concrete text — the solver contributes the exhaustive enumeration of the selector space only)",
@@ -99,6 +99,11 @@ CATALOGUE = [
     ("no query root", "type T { x: Int }"), ("no query root (only mutation)", "type Mutation { x: Int }"), ("undefined query root", "schema { query: Nope } type T { x: Int }"),
     ("undefined mutation root", "schema { query: Query mutation: Nope } type Query { a: Int }"), ("undefined subscription root", "schema { query: Query subscription: Nope } type Query { a: Int }"),
     ("undefined root named Mutation", "schema { query: Query mutation: Mutation } type Query { a: Int }"), ("undefined root named Subscription", "schema { query: Q subscription: Subscription } type Q { a: Int }"),
+    ("undefined mutation root named by extend schema", OK_BASE + "extend schema { mutation: Nope }"), ("undefined subscription root named by extend schema", OK_BASE + "extend schema { subscription: Nope }"),
+    ("undefined root named by extend schema, explicit schema block", "schema { query: Q } type Q { a: Int } extend schema { mutation: Nope }"),
+    ("undefined root in an extension followed by a violating extension", OK_BASE + "extend schema { mutation: Nope } extend type Query { b: Undefined }"),
+    ("violating extension after a directive-only extend schema", OK_BASE + "directive @d on SCHEMA extend schema @d extend type Query { b: [Undefined!]! }"),
+    ("violating extension after a valid extend schema", OK_BASE + "type M { x: Int } extend schema { mutation: M } extend type M { y: Undefined }"),
     # empty / self / duplicates
     ("object without fields", OK_BASE + "type Empty"), ("interface-implementing object without fields", OK_BASE + "interface I { x: Int } type Empty implements I"),
     ("union containing itself", OK_BASE + "type A { x: Int } union U = A | U"), ("union containing only itself", OK_BASE + "union U = U"),
